@@ -69,19 +69,32 @@ fn gen_case(c: &mut Choices) -> Case {
     let mut ids = BTreeMap::new();
     for (k, (src, _)) in srcs.iter().enumerate() {
         let mut s = format!("text of {k}\n");
-        // dependencies on lower-numbered sources (by output name)
-        if k > 0 && c.chance(1, 3) {
+        // dependencies on lower-numbered sources (by output name): none, one before the
+        // command, or one before and one after it - the latter possibly as the very last line
+        let dep_line = |c: &mut Choices, srcs: &Vec<(String, String)>| -> String {
             let j = c.below(k);
             let target = rel_path(names::parent(src), &srcs[j].1);
             if c.chance(1, 2) {
-                s.push_str(&format!("TXTPP#include {target}\n"));
+                format!("TXTPP#include {target}\n")
             } else {
-                s.push_str(&format!("TXTPP#after {target}\n"));
+                format!("TXTPP#after {target}\n")
             }
+        };
+        let ndeps = if k > 0 { c.weighted(&[4, 2, 2]) } else { 0 };
+        if ndeps >= 1 {
+            s.push_str(&dep_line(c, &srcs));
         }
         let id = format!("src{k}");
         s.push_str(&format!("-TXTPP#run echo {id} >> {MARK}/log\n"));
-        s.push_str("end\n");
+        if ndeps >= 2 {
+            s.push_str("middle\n");
+            s.push_str(&dep_line(c, &srcs));
+            if c.chance(1, 2) {
+                s.push_str("end\n");
+            }
+        } else {
+            s.push_str("end\n");
+        }
         ids.insert(src.clone(), id);
         project.put(src, s);
     }
